@@ -1508,17 +1508,21 @@ package resolve
 //@   emits pendingList when len(descriptors) > 0
 //@   trusted prints one pending entry per descriptor of the map, sorted by id (sort.Ints and map iteration order are outside the modelled subset)
 
+//@ decl stable Resolvable.deferInitialDataNull by Resolvable.Resolve, Resolvable.Reset
 //@ func Resolvable.deferAnchorAlive
 //@   requires r != nil
+//@   ensures {nothing.is.alive.below.a.null.root} r.deferInitialDataNull ==> !result
 //@   pure
 
 //@ func Resolvable.liveChildDescriptors
 //@   requires r != nil
 //@   ensures {only.direct.children.of.the.parent} forall id :: has(result, id) ==> has(r.deferDescriptors, id) && r.deferDescriptors[id].ParentID == parentID && result[id] == r.deferDescriptors[id]
 //@   ensures {fresh.or.nil} result == nil || fresh(result)
+//@   ensures {nothing.is.alive.below.a.null.root} r.deferInitialDataNull ==> result == nil
 //@   modifies global(ext)
 //@   loop 0:
 //@     invariant live == nil || fresh(live)
+//@     invariant r.deferInitialDataNull ==> live == nil
 //@     invariant forall id :: has(live, id) ==> has(r.deferDescriptors, id) && r.deferDescriptors[id].ParentID == parentID && live[id] == r.deferDescriptors[id]
 
 //@ func Resolvable.ResolveDeferBatch
@@ -1571,6 +1575,9 @@ package resolve
 //@   ensures {no.incremental.fields.outside.defer.mode} !dm ==> count(hasNext) == old(count(hasNext)) && count(pendingList) == old(count(pendingList))
 //@   ensures {initial.frame.has.one.hasNext} dm && !old(r.ctx.ExecutionOptions.SkipLoader) && result == nil ==> count(hasNext) == old(count(hasNext)) + 1
 //@   ensures {initial.frame.completes.nothing} count(completedEntry) == old(count(completedEntry))
+//@   ghost var g_dataNull bool = false
+//@   at call Resolvable.walkObject: ghost g_dataNull = result
+//@   ensures {an.initial.frame.with.data.null.announces.no.fragment} g_dataNull ==> count(pendingList) == old(count(pendingList))
 //@   modifies *, count(*), nocount(completedEntry)
 //@ func Resolvable.printData
 //@   requires r != nil
